@@ -129,6 +129,32 @@ def run(ck, facts):
                 continue  # rejected spelling
             ck.expect(kinds == {want}, "R2", "ret-kind/opt(%s),%s" % (pname, "std" if std else "dip"), want, "an %s<%s> return lowers to ReturnType::%s, expected %s" % ("Option" if std else "DiplomatOption", pname, sorted(kinds), want), None)
 
+    # an accepted Option<non-pointer> parameter / field is Type::DiplomatOption(<the payload's own lowering>) in both spellings (the wrapper is what makes the macro's
+    # {payload, is_ok} record and the backends' declarations agree); an Option of a pointer is the optional opaque, never DiplomatOption
+    shp = dict(payloads)
+    shp.update({"str": A.t_str("named", True), "pslice": A.t_pslice("named", True)})
+    nwr = 0
+    for pname, pv in shp.items():
+        pointer = pname.startswith(("ref(", "box("))
+        for pos in ("param", "field"):
+            for std in (True, False):
+                outs = [o for o in outcomes(pos, A.t_opt(pv, std)) if not o.pushes and o.ctl is None]
+                if not outs:
+                    continue
+                nwr += 1
+                shown = sorted({A.show(o.val) for o in outs})
+                if pointer:
+                    okw = all(sh.startswith("Ok(Opaque") for sh in shown)
+                    want = "Ok(Opaque(.., Optional(true), ..))"
+                else:
+                    okw = all(sh.startswith("Ok(DiplomatOption(") for sh in shown)
+                    want = "Ok(DiplomatOption(..))"
+                ck.expect(okw, "R2", "%s/opt(%s),%s/wrapper" % (pos, pname, "std" if std else "dip"), shown[0][:60],
+                          "an accepted %s<%s> in position %s lowers to %s, expected %s: the HIR no longer says the value is optional, so the generated declaration takes the bare payload "
+                          "while the macro compiles the {payload, is_ok} record" % ("Option" if std else "DiplomatOption", pname, pos, shown[:1], want), None)
+    if nwr < 10:
+        ck.bad("R2", "opt-wrapper/floor", "only %d accepted optional shapes evaluated" % nwr)
+
     # ---------------- R3 canonicalisation
     shapes = {"prim": A.t_prim(), "named:S": A.t_named("S"), "ref(named:Q)": A.t_ref(A.t_named("Q")), "box(named:Q)": A.t_box(A.t_named("Q")), "str:borrowed,std": A.t_str("named", True),
               "pslice:borrowed,std": A.t_pslice("named", True), "opt(prim),std": A.t_opt(A.t_prim(), True)}
